@@ -144,6 +144,102 @@ fn nontrivial_hash(cfg: &ScannerCfg, input: &str, offset: usize) -> u64 {
 // C01
 // ------------------------------------------------------------------------------------------------
 
+/// C01 on a scanner that is used again and again: 2-4 inputs scanned by successive iterators of ONE
+/// scanner (some only partly), and on the last iterator 1-3 resets to random offsets; every complete
+/// stream is judged by the full rule from where it started. The statement quantifies over "any
+/// input": what an earlier iteration or an earlier part of this one left behind must not matter.
+pub fn c01_reuse_case(rng: &mut Rng, st: &mut Stats) -> CaseOutcome {
+    let p = GenParams::varied(rng);
+    let mp = ModeParams { min_pats: 1, max_pats: 5, la_percent: 0, by_index: rng.chance(1, 2) };
+    let cfg = gen_single_mode(rng, &p, &mp);
+    if !guard_roundtrip(&cfg) {
+        return CaseOutcome::Skipped;
+    }
+    let res_refs = cfg.all_res();
+    let inputs: Vec<String> = (0..rng.range(2, 4)).map(|_| gen_input(rng, &res_refs, &p.letters, 30)).collect();
+    let path = if rng.chance(1, 3) { BuildPath::Cached } else { BuildPath::Uncached };
+    let partial: Vec<usize> = inputs.iter().map(|_| if rng.chance(1, 3) { rng.below(4) } else { usize::MAX }).collect();
+    let last = inputs.last().unwrap();
+    let lb = crate::hist::boundaries(last);
+    let resets: Vec<usize> = (0..rng.range(1, 3)).map(|_| *rng.pick(&lb)).collect();
+    let case = || {
+        let mut c = case_json("tok_reuse", &cfg, last, 0, path);
+        c["inputs"] = json!(inputs);
+        c["tokens_taken_per_input"] = json!(partial.iter().map(|n| if *n == usize::MAX { -1 } else { *n as i64 }).collect::<Vec<_>>());
+        c["resets_on_last_iterator"] = json!(resets);
+        c
+    };
+    let scanner = match build_with(&cfg, path) {
+        Ok(s) => s,
+        Err(e) => return CaseOutcome::Violated(Violation::new(e, case())),
+    };
+    // (input index, start offset, tokens, complete?)
+    let r = sut(|| {
+        let mut streams: Vec<(usize, usize, Vec<Tok>, bool)> = Vec::new();
+        for (k, input) in inputs.iter().enumerate() {
+            let mut it = scanner.find_iter(input);
+            let mut toks = Vec::new();
+            let mut complete = true;
+            loop {
+                if toks.len() >= partial[k] {
+                    complete = false;
+                    break;
+                }
+                match it.next() {
+                    Some(m) => toks.push(Tok::from(m)),
+                    None => break,
+                }
+            }
+            streams.push((k, 0, toks, complete));
+            if k + 1 == inputs.len() {
+                for o in &resets {
+                    it.set_offset(*o);
+                    let mut toks = Vec::new();
+                    while let Some(m) = it.next() {
+                        toks.push(Tok::from(m));
+                        if toks.len() > input.len() + 2 {
+                            break;
+                        }
+                    }
+                    streams.push((k, *o, toks, true));
+                }
+            }
+        }
+        streams
+    });
+    let streams = match r {
+        Ok(s) => s,
+        Err(pm) => return CaseOutcome::Violated(Violation::new(format!("panic while scanning: {}", pm), case())),
+    };
+    let pats = &cfg.modes[0].pats;
+    for (k, o, toks, complete) in &streams {
+        let inp = RefInput::new(&inputs[*k]);
+        if inp.len() > MAX_DENOT_CHARS {
+            continue;
+        }
+        let start = inp.char_index(*o).unwrap();
+        st.count("streams_on_reused_scanner_checked");
+        if *o > 0 {
+            st.count("streams_after_reset_checked");
+        }
+        let verdict = match check_full_rule(pats, &inp, toks, start, st) {
+            // a stream that was deliberately left early cannot be blamed for what it did not report
+            Err(e) if !*complete && e.starts_with("no token reported at offset") => Ok(()),
+            other => other,
+        };
+        if let Err(e) = verdict {
+            let mut c = case();
+            c["failing_stream"] = json!({"input_index": k, "start_offset": o, "tokens": toks_json(toks)});
+            return CaseOutcome::Violated(Violation::new(
+                format!("input #{} of a reused scanner, scanned from offset {}: {}", k, o, e),
+                c,
+            ));
+        }
+    }
+    st.nontrivial(hash_of(&(&cfg, &inputs, &resets)));
+    CaseOutcome::Ok
+}
+
 pub fn c01(tier: Tier) -> i32 {
     let ctx = Ctx::new("C01", tier, "exploration");
     let mut res = RunResult::new();
@@ -411,6 +507,10 @@ pub fn c01(tier: Tier) -> i32 {
         }));
     }
 
+    // Stream 7: one scanner, several inputs, resets - judged by the full rule.
+    let nreuse = ctx.scale(10_000, 600_000);
+    res.merge(run_cases(&ctx, 7, nreuse, |rng, _i, st| c01_reuse_case(rng, st)));
+
     // Stream 6: long tokens (lengths across 2^8, 2^15, 2^16 and 2^17 characters, multi-byte
     // included), judged by the derivative-based reference tokenizer (no input length limit).
     #[cfg(feature = "hooks")]
@@ -420,7 +520,7 @@ pub fn c01(tier: Tier) -> i32 {
     }
 
     let report = Report::new(
-        "stream 6: long tokens - 1-4 patterns from a pool of run-shaped patterns (a+, [bc]+d, string and comment literals, multi-byte runs, (fg)*, (h|hi)+j, counted classes, .+) in random priority order, inputs of 2-7 pieces with lengths around 256, 32 768, 65 536 and 131 072 characters and in between (up to 0.9 MB), every token compared with the derivative-based reference tokenizer (longest match, first listed pattern, skip); stream 5: large modes of 40-150 patterns (keyword sets with shared prefixes over 3 to 48 letters plus general patterns; automata with hundreds of states); stream 4: the valid rows of the repository's tests/match_test.rs re-judged by the reference; stream 1: random lookahead-free modes (1-6 patterns as IR: literals in all escape styles, dot, classes, Perl classes, groups, alternation incl. empty branches, * + ? {m} {m,} {m,n}; token types by index or arbitrary u32 values) x inputs of 0-40 chars built from members/near-misses of the pattern languages plus noise, through build_uncached / build / add_patterns; stream 2: every IR term with <= k operators over {a,b} as single pattern x every string over {a,b,z} up to length L (exhaustive sub-space); thorough adds sampled term pairs. Oracle: denotational matcher + longest-match/first-pattern/skip rule. A case is non-trivial if tokens were produced and a tie-break, a later-pattern-wins-by-length or a skip event occurred (stream 1) / a token was produced (stream 2); distinct by hash of (configuration, input).",
+        "stream 7: one scanner used for 2-4 inputs by successive iterators (some left early), then 1-3 resets of the last iterator to random offsets; every stream judged by the full rule from its start offset; stream 6: long tokens - 1-4 patterns from a pool of run-shaped patterns (a+, [bc]+d, string and comment literals, multi-byte runs, (fg)*, (h|hi)+j, counted classes, .+) in random priority order, inputs of 2-7 pieces with lengths around 256, 32 768, 65 536 and 131 072 characters and in between (up to 0.9 MB), every token compared with the derivative-based reference tokenizer (longest match, first listed pattern, skip); stream 5: large modes of 40-150 patterns (keyword sets with shared prefixes over 3 to 48 letters plus general patterns; automata with hundreds of states); stream 4: the valid rows of the repository's tests/match_test.rs re-judged by the reference; stream 1: random lookahead-free modes (1-6 patterns as IR: literals in all escape styles, dot, classes, Perl classes, groups, alternation incl. empty branches, * + ? {m} {m,} {m,n}; token types by index or arbitrary u32 values) x inputs of 0-40 chars built from members/near-misses of the pattern languages plus noise, through build_uncached / build / add_patterns; stream 2: every IR term with <= k operators over {a,b} as single pattern x every string over {a,b,z} up to length L (exhaustive sub-space); thorough adds sampled term pairs. Oracle: denotational matcher + longest-match/first-pattern/skip rule. A case is non-trivial if tokens were produced and a tie-break, a later-pattern-wins-by-length or a skip event occurred (stream 1) / a token was produced (stream 2); distinct by hash of (configuration, input).",
     )
     .floor("tie_break", 1000)
     .floor("later_wins_by_length", 1000)
@@ -431,6 +531,8 @@ pub fn c01(tier: Tier) -> i32 {
     .floor("systematic_scans", 100_000)
     .floor("repository_rows_checked", 100)
     .floor("large_mode_scans", 1_000)
+    .floor("streams_on_reused_scanner_checked", 20_000)
+    .floor("streams_after_reset_checked", 5_000)
     .floor("long_token_scans", if cfg!(feature = "hooks") { 50 } else { 0 })
     .floor("scans_with_a_piece_longer_than_65535_chars", if cfg!(feature = "hooks") { 20 } else { 0 })
     .assume("regex-syntax 0.8 is only used as a guard (printed IR must parse back to the same structure, otherwise the case is skipped and counted)")
@@ -613,13 +715,13 @@ fn la_case(
 /// C04 on a USED iterator: some tokens are consumed (and peeked), then set_offset moves the
 /// iterator to another character boundary and the rest of the stream is judged by the gate rule
 /// from there ("all scan start offsets including after set_offset").
-fn c04_reset_case(rng: &mut Rng, st: &mut Stats) -> CaseOutcome {
+pub fn c04_reset_case(rng: &mut Rng, st: &mut Stats) -> CaseOutcome {
     reset_case(rng, st, false)
 }
 
 /// The same history (use the iterator, then reset it once or several times) judged by the selection
 /// rule of C05: a lookahead result remembered from before a reset must not decide the choice.
-fn c05_reset_case(rng: &mut Rng, st: &mut Stats) -> CaseOutcome {
+pub fn c05_reset_case(rng: &mut Rng, st: &mut Stats) -> CaseOutcome {
     reset_case(rng, st, true)
 }
 
